@@ -203,7 +203,7 @@ Prefix1(n, k)  == [i \in 1..n |-> IF i <= k THEN 1 ELSE 0]
 Suffix1(n, k)  == [i \in 1..n |-> IF i > n - k THEN 1 ELSE 0]
 
 AllFracs(n)  == {NatToBits(v, n) : v \in 0..(Pow2[n] - 1)}
-MiniFracs(n) == {Zeros(n), Ones(n), Alt(n, 0), Alt(n, 1), OneBit(n, 1), OneBit(n, n)}
+MiniFracs(n) == {Zeros(n), Ones(n), Alt(n, 0), OneBit(n, 1), OneBit(n, n)}   \* 0, all ones, alternating, top bit, low bit
 LiteFracs(n) == {Zeros(n), Ones(n), Alt(n, 0), Alt(n, 1)} \cup {OneBit(n, k) : k \in 1..n}
 BoundaryFracs(n) ==
   LiteFracs(n) \cup {AllBut(n, k) : k \in 1..n}
